@@ -325,7 +325,7 @@ func (m *migrator) buildBufYAMLAndBufLockFiles(
 	for _, declaredRef := range migrateBuilder.configuredDepModuleRefs {
 		moduleFullName := declaredRef.FullName().String()
 		// If a declared dependency also shows up in the workspace, it's not a dependency.
-		if _, ok := migrateBuilder.moduleFullNameStringToParentPath[moduleFullName]; ok {
+		if migrateBuilder.isWorkspaceModuleFullNameString(moduleFullName) {
 			continue
 		}
 		depModuleToDeclaredRefs[moduleFullName] = append(depModuleToDeclaredRefs[moduleFullName], declaredRef)
@@ -338,7 +338,7 @@ func (m *migrator) buildBufYAMLAndBufLockFiles(
 		//
 		// We are only removing lock entries that are in the workspace. A lock entry
 		// could be for an indirect dependency not listed in deps in any buf.yaml.
-		if _, ok := migrateBuilder.moduleFullNameStringToParentPath[moduleFullName]; ok {
+		if migrateBuilder.isWorkspaceModuleFullNameString(moduleFullName) {
 			continue
 		}
 		depModuleToLockEntries[moduleFullName] = append(depModuleToLockEntries[moduleFullName], lockEntry)
